@@ -27,6 +27,11 @@ func (e BridgeEngine) Gen(r *Run) Step {
 			return s
 		}
 	}
+	if st.Edge != nil {
+		if s, ok := e.genEdge(r); ok {
+			return s
+		}
+	}
 	for try := 0; try < 20; try++ {
 		kind := Weighted(r.Rng, r.Cfg.Weights)
 		if s, ok := e.genKind(r, kind); ok {
@@ -150,6 +155,12 @@ func (e BridgeEngine) genKind(r *Run, kind string) (Step, bool) {
 		st.Flooded[c.Name] = true
 		r.Probe("flood-over-batch-size")
 		return blk(txs...), true
+	case "edge":
+		if st.Edge != nil || st.Race != nil || !c.Ext.Inited {
+			return Step{}, false
+		}
+		st.Edge = &edgeSt{Chain: c.Name}
+		return e.genEdge(r)
 	case "race2":
 		// scripted scenario driven stage by stage from the current state (see genRace): batches of two
 		// tokens in flight together, the newer one executed first
@@ -1133,6 +1144,119 @@ func (e BridgeEngine) genAdversary(r *Run, c *ChainSt, v *ChainView) (Step, bool
 var _ = sdk.AccAddress{}
 var _ = common.Address{}
 var _ = big.NewInt
+
+// edgeSt: progress of the timeout-boundary scenario.
+type edgeSt struct {
+	Chain string
+	Stage int
+	Op    string // "bridge_call" | "batch"
+	Nonce uint64
+	Token string
+	At    uint64 // the external height the scenario parks the chain at
+}
+
+// genEdge: an outgoing bridge call or batch with timeout T is still open. The external chain is advanced to
+// exactly T-1 (or T, or T-2: drawn), everybody confirms, an unrelated event happens in that very block and
+// all oracles report it, and then - still in the same external block - the relayer submits the object, whether
+// fxcore still lists it or not. The external contract accepts it iff height < T; fxcore must not have released
+// the value in that case.
+func (e BridgeEngine) genEdge(r *Run) (Step, bool) {
+	st := bst(r)
+	w := r.W
+	es := st.Edge
+	c := st.chain(es.Chain)
+	end := func() (Step, bool) { st.Edge = nil; return Step{}, false }
+	if c == nil {
+		return end()
+	}
+	v := w.ViewChain(w.Ctx(), c.Name)
+	blk := func(txs ...Tx) Step { return Step{Kind: "block", DtMs: 1000 + int64(r.Rng.IntN(3000)), N: 1, Txs: txs} }
+	stage := es.Stage
+	es.Stage++
+	switch {
+	case stage == 0:
+		type cand struct {
+			op, token string
+			nonce, t  uint64
+		}
+		var cs []cand
+		for _, bc := range v.Calls {
+			if bc.Timeout > c.Ext.Height+2 {
+				cs = append(cs, cand{"bridge_call", "", bc.Nonce, bc.Timeout})
+			}
+		}
+		for _, b := range v.Batches {
+			if b.BatchTimeout > c.Ext.Height+2 {
+				cs = append(cs, cand{"batch", b.TokenContract, b.BatchNonce, b.BatchTimeout})
+			}
+		}
+		if len(cs) == 0 {
+			return end()
+		}
+		x := cs[r.Rng.IntN(len(cs))]
+		es.Op, es.Token, es.Nonce = x.op, x.token, x.nonce
+		es.At = x.t - 1
+		switch r.Rng.IntN(6) {
+		case 0:
+			es.At = x.t
+		case 1:
+			es.At = x.t - 2
+		}
+		r.Probe("timeout-boundary-started:" + x.op)
+		return Step{Kind: "ext", A: A("chain", c.Name, "op", "height", "n", es.At-c.Ext.Height)}, true
+	case stage == 1:
+		if txs := e.genConfirms(r, c, v, 40); len(txs) > 0 {
+			return blk(txs...), true
+		}
+		return e.genEdge(r)
+	case stage == 2:
+		if c.Ext.Height != es.At {
+			return end()
+		}
+		var toks []*TokenInfo
+		for _, t := range c.Tokens {
+			if t.Added {
+				toks = append(toks, t)
+			}
+		}
+		if len(toks) == 0 {
+			return end()
+		}
+		return Step{Kind: "ext", A: A("chain", c.Name, "op", "send_to_fx", "symbol", toks[r.Rng.IntN(len(toks))].Symbol, "user", r.Rng.IntN(st.NUsers), "amount", 1+r.Rng.IntN(50), "target", "")}, true
+	case stage >= 3 && stage <= 10:
+		// every online oracle reports until the chain has observed everything (several events may be outstanding)
+		if v.LastObs >= c.Ext.EventNonce {
+			es.Stage = 11
+			return e.genEdge(r)
+		}
+		var txs []Tx
+		for i := range c.Oracles {
+			ob := c.oracleKey(w, i).Bech()
+			if or, ok := v.Oracles[ob]; ok && or.Online {
+				next := v.EffectiveOracleNonce(ob) + 1
+				for k := uint64(0); k < 4 && next+k <= c.Ext.EventNonce; k++ {
+					txs = append(txs, Tx{K: "claim", S: KeyName("bridger", c.bridgerKey(w, i).Idx), A: A("chain", c.Name, "o", i, "n", next+k)})
+				}
+			}
+		}
+		if len(txs) == 0 {
+			es.Stage = 11
+			return e.genEdge(r)
+		}
+		return blk(txs...), true
+	case stage == 11:
+		if c.Ext.Height != es.At {
+			return end()
+		}
+		r.Probe("timeout-boundary-relayed:" + es.Op)
+		st.Edge = nil
+		if es.Op == "batch" {
+			return Step{Kind: "relay", A: A("chain", c.Name, "op", "batch", "nonce", es.Nonce, "token", es.Token)}, true
+		}
+		return Step{Kind: "relay", A: A("chain", c.Name, "op", "bridge_call", "nonce", es.Nonce, "success", 1)}, true
+	}
+	return end()
+}
 
 // raceSt: progress of the two-token race scenario.
 type raceSt struct {
